@@ -85,6 +85,32 @@ def _ensure_native_byte_order(array):
 
 ###############################################################################
 # Cache file utilities
+class _ExactReadFile:
+    """Reader returning all the bytes asked for, for unbuffered file objects.
+
+    ``read(size)`` of a raw stream (``io.RawIOBase``: unbuffered files, pipes,
+    sockets, network file systems) may return fewer than ``size`` bytes before
+    the end of the stream. The Python implementation of the Unpickler does not
+    check the length of what it gets and would silently build a truncated
+    object from it.
+    """
+
+    def __init__(self, fileobj):
+        self._fileobj = fileobj
+
+    def read(self, size):
+        data = self._fileobj.read(size) or b""
+        while len(data) < size:
+            more = self._fileobj.read(size - len(data))
+            if not more:
+                break
+            data += more
+        return data
+
+    def readline(self):
+        return self._fileobj.readline()
+
+
 def _detect_compressor(fileobj):
     """Return the compressor matching fileobj.
 
@@ -109,11 +135,11 @@ def _detect_compressor(fileobj):
             # of the file object is almost consumed, e.g. when several
             # objects are loaded one after the other from the same file.
             position = fileobj.tell()
-            first_bytes = fileobj.read(max_prefix_len)
+            first_bytes = _ExactReadFile(fileobj).read(max_prefix_len)
             fileobj.seek(position)
     else:
         # Fallback to seek if the fileobject is not peekable.
-        first_bytes = fileobj.read(max_prefix_len)
+        first_bytes = _ExactReadFile(fileobj).read(max_prefix_len)
         fileobj.seek(0)
 
     if first_bytes.startswith(_ZFILE_PREFIX):
